@@ -47,6 +47,7 @@ class Ctx:
         self.exhausted = {}      # name -> bool: finite space fully enumerated by this shard's slice
         self.current = None
         self.notes = {}
+        self.sets = {}           # name -> set of hashable JSON-able items, merged by union across shards
 
     # -- bookkeeping ---------------------------------------------------------------------------------------------
     def quick(self):
@@ -67,6 +68,9 @@ class Ctx:
 
     def mon(self, name, n=1):
         self.monitors[name] += n
+
+    def setadd(self, name, items):
+        self.sets.setdefault(name, set()).update(items)
 
     def obs(self, name, value):
         if name not in self.obs_max or value > self.obs_max[name]:
@@ -99,6 +103,7 @@ class Ctx:
                     violations=self.violations, violation_count=self.violation_count,
                     violation_kinds=dict(self._viol_kinds), harness_errors=self.harness_errors[:5],
                     truncated=self.truncated, exhausted=self.exhausted, notes=self.notes,
+                    sets={k: sorted(jdump(x) for x in v) for k, v in self.sets.items()},
                     wall_s=time.time() - self.t0), hs
 
 
@@ -208,7 +213,7 @@ def check_main(pid, tier, seed, nshards=None, budget_s=None, jobs=None):
         os.rmdir(tmp)
 
     agg = dict(evaluations=0, classes=Counter(), monitors=Counter(), obs_max={}, samples={}, violations=[],
-               violation_count=0, harness_errors=[], truncated=0, exhausted={}, notes={}, shards=len(results),
+               violation_count=0, harness_errors=[], truncated=0, exhausted={}, notes={}, sets={}, shards=len(results),
                shards_planned=nshards, shard_wall_max=0.0)
     for r in results:
         agg["evaluations"] += r["evaluations"]
@@ -229,6 +234,8 @@ def check_main(pid, tier, seed, nshards=None, budget_s=None, jobs=None):
             agg["exhausted"][k] = agg["exhausted"].get(k, True) and bool(v)
         for k, v in r["notes"].items():
             agg["notes"].setdefault(k, v)
+        for k, v in r.get("sets", {}).items():
+            agg["sets"].setdefault(k, set()).update(v)
         agg["shard_wall_max"] = max(agg["shard_wall_max"], r["wall_s"])
     distinct = int(len(np.unique(np.concatenate(hashes)))) if hashes and sum(len(h) for h in hashes) else 0
     agg["distinct_nontrivial"] = distinct
@@ -285,7 +292,7 @@ def check_main(pid, tier, seed, nshards=None, budget_s=None, jobs=None):
             exhaustive_spaces={k: bool(v) for k, v in agg["exhausted"].items()},
             classes=dict(sorted(agg["classes"].items())),
             monitor_observations=dict(sorted(agg["monitors"].items())),
-            maxima=agg["obs_max"], notes=agg["notes"],
+            maxima=agg["obs_max"], notes=agg["notes"], distinct_states_observed={k: len(v) for k, v in sorted(agg["sets"].items())},
             shards=agg["shards"], shards_planned=nshards, shards_stopped_by_time_cap=agg["truncated"],
             verdict=verdict, inconclusive_reasons=inconclusive[:10],
             known_findings_observed=sorted(known_seen),
